@@ -290,6 +290,13 @@ pub fn run() {
     run_family("org-after-every-position", &orgs, &mut fam, &mut all);
     let sizes = size_programs();
     run_family("images-of-every-size", &sizes, &mut fam, &mut all);
+    // the layout families of C02: every relative jump distance, every shape after directive prefixes, limits
+    let jumps = crate::c02::jump_programs(!quick);
+    run_family("relative-jumps-every-distance", &jumps, &mut fam, &mut all);
+    let shapes = crate::c02::shapes(true);
+    let lay = crate::c02::layout_programs(if quick { 1 } else { 2 }, &shapes);
+    run_family("shapes-after-directive-prefixes", &lay, &mut fam, &mut all);
+    run_family("limit-directives", &crate::c02::limit_programs(), &mut fam, &mut all);
     let repo: Vec<String> = corpus::repo_programs().into_iter().map(|p| p.1).collect();
     run_family("repository-programs", &repo, &mut fam, &mut all);
     // label case variants through every referencing form come with label_programs(); mutations of repo programs:
@@ -320,7 +327,7 @@ pub fn run() {
     ctx.set("distinct_nontrivial", all.accepted);
     ctx.set("rule", "every enumerated source text goes parse -> Translator::compile -> Machine::load (+ new_with_program, 12 steps, byte-code listing) under catch_unwind; distinct_nontrivial = texts accepted by the parser (the later stages ran); a cross-section additionally runs through the real binary: `verify` exit 0 implies `run` does not die by panic");
     ctx.set("exhaustive", true);
-    ctx.set("bounds", format!(".ORG a after every position p: {} x 256 pairs; images of every size 0..=300 by 7 constructions; sentence / line-shape / label-rule families of C03; single-token mutations of the small repository programs; {} process invocations ({} programs accepted by `verify`)", if quick { 11 } else { 256 }, spawned, proc_accepted));
+    ctx.set("bounds", format!(".ORG a after every position p: {} x 256 pairs; images of every size 0..=300 by 7 constructions; sentence / line-shape / label-rule families of C03; the relative-jump (every distance), directive-prefix layout and limit families of C02; single-token mutations of the small repository programs; {} process invocations ({} programs accepted by `verify`)", if quick { 11 } else { 256 }, spawned, proc_accepted));
     ctx.set("accepted_programs", all.accepted);
     ctx.set("compiled_and_loaded_without_panic", all.ok);
     let mut fj = Json::obj();
